@@ -128,7 +128,7 @@ def compare_rows(table, classes=("bool", "other", "none"), ignore_op_wiring=Fals
         for p in table["rows"][kind]:
             for c in canon_path(p, table["opfns"]):
                 actual.add(c)
-        exp = set(evalorder.expected(kind))
+        exp = set(evalorder.expected(kind, table.get("loop_bound")))
         actual = set(x for x in actual if path_class(kind, x) in classes)
         exp = set(x for x in exp if path_class(kind, x) in classes)
         if tags_result_only:
